@@ -8,6 +8,7 @@ import (
 	"net/http"
 	"net/url"
 	"strings"
+	"sync"
 	"time"
 
 	"github.com/inbucket/inbucket/v3/pkg/rest/client"
@@ -105,7 +106,8 @@ var endpoints = []endpoint{
 	{"webui-attach", func(x, id string) string { return "/serve/mailbox/" + x + "/" + id + "/attach/0/note.txt" }, hasToken("attached ")},
 }
 
-func endToEnd(c *fw.Ctx, n *namer, idx int, r *fw.Rand) {
+func endToEnd(c *fw.Ctx, namers []*namer, idx int, r *fw.Rand) {
+	n := namers[idx%len(namers)]
 	// pick an accepted address that can be written on an SMTP command line
 	var a addr
 	found := false
@@ -117,10 +119,7 @@ func endToEnd(c *fw.Ctx, n *namer, idx int, r *fw.Rand) {
 			a.Class = "mut:" + a.Class
 			a.Plain = plainLocalEnd(a.Text) >= 0
 		}
-		if strings.ContainsAny(a.Text, "\r\n") {
-			continue
-		}
-		if t := strings.Trim(a.Text, "<> "); t != a.Text {
+		if !writable(a.Text) {
 			continue // the RCPT argument syntax would strip it; not an address RCPT sees as written
 		}
 		if _, err := n.pol.NewRecipient(a.Text); err == nil {
@@ -130,6 +129,23 @@ func endToEnd(c *fw.Ctx, n *namer, idx int, r *fw.Rand) {
 	if !found {
 		c.Count("e2e_no_address", 1)
 		return
+	}
+	// Added after seeded change C04-8: the statement is about every string "a RCPT TO accepts",
+	// and that is decided by the server, not by the harness' policy object.  Every other case
+	// first offers the server a string the policy object refuses (no domain, empty domain, ...).
+	// Refused (501/550): counted, the case goes on with the address picked above.  Accepted (250):
+	// that string is the address of this case and the full set of read-side checks applies to it.
+	offered, offeredClass := "", ""
+	if r.Chance(1, 2) {
+		for try := 0; try < 50 && offered == ""; try++ {
+			s, cls := genOffered(r)
+			if s == "" || !writable(s) {
+				continue
+			}
+			if _, err := n.pol.NewRecipient(s); err != nil {
+				offered, offeredClass = s, cls
+			}
+		}
 	}
 	conf := sut.DefaultConf()
 	conf.MailboxNaming = n.pol.Config.MailboxNaming
@@ -144,55 +160,197 @@ func endToEnd(c *fw.Ctx, n *namer, idx int, r *fw.Rand) {
 		panic(err)
 	}
 	defer env.Close()
-	detail := map[string]any{"mode": n.mode, "address": a.Text, "class": a.Class}
-	name, errName := env.Policy.ExtractMailbox(a.Text)
-	if errName != nil || name == "" {
-		c.Violation("C04:empty-name:"+n.mode, fmt.Sprintf("mode %s: accepted address %q has no name: %q %v", n.mode, a.Text, name, errName), detail)
-		return
-	}
 
-	// deliver two messages to the address
 	ss := env.StartSMTP()
 	defer func() {
 		if !ss.Ended() && !ss.Close() {
 			c.Hang("smtp-session-end", "SMTP session did not end after the client closed", "")
 		}
 	}()
-	token := r.Letters(12, lower+digits)
-	type step struct {
-		line string
-		code int
-		rcpt bool
-	}
-	steps := []step{{"EHLO client.test", 250, false}}
-	for k := 0; k < 2; k++ {
-		steps = append(steps,
-			step{"MAIL FROM:<sender@origin.test>", 250, false},
-			step{"RCPT TO:<" + a.Text + ">", 250, true},
-			step{"DATA", 354, false},
-			step{strings.TrimSuffix(string(sut.DotStuff([]byte(mimeMessage(fmt.Sprintf("c04 %s #%d", token, k), token)))), "\r\n"), 250, false})
-	}
 	if _, ok := ss.Greeting(); !ok {
 		c.Inconclusive("no SMTP greeting")
 		return
 	}
-	for _, st := range steps {
-		rep, err := ss.Cmd(st.line)
+	// say sends one command; want == 0 accepts any reply code.
+	say := func(line string, want int) (int, bool) {
+		rep, err := ss.Cmd(line)
 		if err != nil {
 			c.Inconclusive("SMTP dialogue: " + err.Error())
+			return 0, false
+		}
+		if want != 0 && rep.Code != want {
+			c.Inconclusive(fmt.Sprintf("SMTP step %q answered %s", fw.Trunc(line, 40), rep.String()))
+			return rep.Code, false
+		}
+		return rep.Code, true
+	}
+	if _, ok := say("EHLO client.test", 250); !ok {
+		return
+	}
+	flipped := flipCase(r, a.Text)
+	flippedAccepted := false
+	serverOnly := false // the address of this case is accepted by the server but refused by the policy object
+	if offered != "" {
+		// probe transaction: is the offered string (and a case-flipped spelling of it) accepted?
+		if _, ok := say("MAIL FROM:<sender@origin.test>", 250); !ok {
 			return
 		}
-		if rep.Code != st.code {
-			if st.rcpt {
-				// RCPT refused although NewRecipient accepts: not an address "RCPT TO accepts"
-				c.Count("e2e_rcpt_refused", 1)
-				return
+		code, ok := say("RCPT TO:<"+offered+">", 0)
+		if !ok {
+			return
+		}
+		c.Count("e2e_rcpt_offered", 1)
+		c.Count("e2e_rcpt_offered:"+classHead(offeredClass), 1)
+		if code == 250 {
+			c.Count("e2e_rcpt_offered_accepted", 1)
+			serverOnly = true
+			a = addr{Text: offered, Class: "offered:" + offeredClass, Plain: plainLocalEnd(offered) >= 0}
+			flipped = flipCase(r, a.Text)
+			if flipped != a.Text && writable(flipped) {
+				code, ok := say("RCPT TO:<"+flipped+">", 0)
+				if !ok {
+					return
+				}
+				flippedAccepted = code == 250
 			}
-			c.Inconclusive(fmt.Sprintf("SMTP step %q answered %s", fw.Trunc(st.line, 40), rep.String()))
+		} else {
+			c.Count(fmt.Sprintf("e2e_rcpt_offered_refused:%d", code), 1)
+			offeredClass = "refused"
+		}
+		if _, ok := say("RSET", 250); !ok {
 			return
 		}
 	}
-	detail["trace"] = ss.Trace[:4]
+	if !serverOnly && flipped != a.Text {
+		_, err := env.Policy.NewRecipient(flipped)
+		flippedAccepted = err == nil
+	}
+	detail := map[string]any{"mode": n.mode, "address": a.Text, "class": a.Class}
+	name, errName := env.Policy.ExtractMailbox(a.Text)
+	if errName != nil || name == "" {
+		key := "C04:empty-name:" + n.mode
+		if serverOnly {
+			key = "C04:rcpt-accepted-not-nameable:" + n.mode
+		}
+		c.Violation(key, fmt.Sprintf("mode %s: address %q is accepted by RCPT TO but the read side has no name for it: %q %v", n.mode, a.Text, name, errName), detail)
+		return
+	}
+
+	// lookup keys
+	cl := env.Server.Client()
+	cl.CheckRedirect = func(*http.Request, []*http.Request) error { return http.ErrUseLastResponse }
+	edge, kind := edgePeriod(n.mode, name)
+	type key struct{ how, x string }
+	all := []key{{"address", a.Text}, {"name", name}}
+	if flippedAccepted {
+		all = append(all, key{"flipped", flipped})
+	}
+	var keys []key
+	for _, k := range all {
+		if strings.Contains(k.x, "/") {
+			c.Count("e2e_skipped_slash", 1)
+			continue
+		}
+		keys = append(keys, k)
+	}
+	fkey := func(k key, iface string) string {
+		if k.how == "name" && edge {
+			return keyEdgePeriod
+		}
+		return "C04:" + iface + "-by-" + k.how + ":" + n.mode
+	}
+	sig := "e2e|" + n.mode + "|" + a.Class
+	if serverOnly {
+		sig = "e2e|" + n.mode + "|offered:" + classHead(offeredClass)
+	} else if offeredClass == "refused" {
+		sig += "|offered-refused"
+	}
+
+	// Per-mailbox WebSocket monitors, opened before the deliveries (see monitor.go).
+	var monitors []*monitor
+	defer func() {
+		for _, m := range monitors {
+			_ = m.conn.Close() // ends the reader goroutine and the server's handler
+		}
+	}()
+	// by address: both API versions; by name and by the flipped address: one version each, drawn
+	// from the case's random stream.  The upgrades run side by side (their latency, not their work,
+	// is what costs wall time).
+	type plan struct {
+		k      key
+		v      int
+		m      *monitor
+		status int
+		err    error
+	}
+	var plans []*plan
+	for _, k := range keys {
+		if k.how == "address" {
+			plans = append(plans, &plan{k: k, v: 1}, &plan{k: k, v: 2})
+		} else {
+			plans = append(plans, &plan{k: k, v: 1 + r.Intn(2)})
+		}
+	}
+	ok, dump = c.Within(120*time.Second, func() {
+		var wg sync.WaitGroup
+		for _, p := range plans {
+			wg.Add(1)
+			go func(p *plan) {
+				defer wg.Done()
+				p.m, p.status, p.err = dialMonitor(env, p.v, p.k.how, p.k.x)
+			}(p)
+		}
+		wg.Wait()
+	})
+	if !ok {
+		c.Hang("monitor-dial", fmt.Sprintf("mode %s: opening the mailbox monitors for %q did not finish", n.mode, a.Text), dump)
+		return // the abandoned goroutines own the plans
+	}
+	var dialErr error
+	for _, p := range plans {
+		switch {
+		case p.err == nil:
+			monitors = append(monitors, p.m)
+		case p.status != 0:
+			c.Count("e2e_ws_refused", 1)
+			c.Violation(fkey(p.k, fmt.Sprintf("ws-v%d", p.v)), fmt.Sprintf("mode %s: the v%d monitor of the mailbox of %q (mailbox %q) asked [by %s %q] is refused: HTTP %d",
+				n.mode, p.v, a.Text, name, p.k.how, p.k.x, p.status), detail)
+		default:
+			dialErr = p.err
+		}
+	}
+	if dialErr != nil {
+		c.Inconclusive("WebSocket dial: " + dialErr.Error())
+		return
+	}
+
+	// deliver two messages to the address
+	token := r.Letters(12, lower+digits)
+	for k := 0; k < 2; k++ {
+		if _, ok := say("MAIL FROM:<sender@origin.test>", 250); !ok {
+			return
+		}
+		code, ok := say("RCPT TO:<"+a.Text+">", 0)
+		if !ok {
+			return
+		}
+		if code != 250 {
+			// RCPT refused although NewRecipient accepts: not an address "RCPT TO accepts"
+			c.Count("e2e_rcpt_refused", 1)
+			return
+		}
+		if _, ok := say("DATA", 354); !ok {
+			return
+		}
+		if _, ok := say(strings.TrimSuffix(string(sut.DotStuff([]byte(mimeMessage(fmt.Sprintf("c04 %s #%d", token, k), token)))), "\r\n"), 250); !ok {
+			return
+		}
+	}
+	tr := ss.Trace
+	if len(tr) > 9 {
+		tr = tr[:9]
+	}
+	detail["trace"] = tr
 	snap, err := sut.Snapshot(env.Store, []string{name}, false)
 	if err != nil {
 		c.Violation("C04:store-unreadable", err.Error(), detail)
@@ -213,33 +371,77 @@ func endToEnd(c *fw.Ctx, n *namer, idx int, r *fw.Rand) {
 		return
 	}
 
-	// lookup keys
-	cl := env.Server.Client()
-	cl.CheckRedirect = func(*http.Request, []*http.Request) error { return http.ErrUseLastResponse }
-	edge, kind := edgePeriod(n.mode, name)
-	flipped := flipCase(r, a.Text)
-	type key struct{ how, x string }
-	all := []key{{"address", a.Text}, {"name", name}}
-	if flipped != a.Text {
-		if _, err := env.Policy.NewRecipient(flipped); err == nil {
-			all = append(all, key{"flipped", flipped})
+	// every monitor must have been told of both stored messages
+	if len(monitors) > 0 {
+		// mailboxes a monitor might watch by mistake: the name the read side derives from the key
+		// (the delivery-time name on a correct server), the key as written, lower-cased,
+		// URL-escaped, and the name another naming mode derives from it
+		var cands []string
+		for _, k := range keys {
+			if on, err := env.Manager.MailboxForAddress(k.x); err == nil {
+				cands = append(cands, on)
+			}
+		}
+		for _, k := range keys {
+			cands = append(cands, k.x, strings.ToLower(k.x), url.PathEscape(k.x))
+			for _, o := range namers {
+				if on, err := o.pol.ExtractMailbox(k.x); err == nil && o != n {
+					cands = append(cands, on)
+				}
+			}
+		}
+		targets := sentinelTargets(name, cands)
+		ok, dump := c.Within(30*time.Second, func() {
+			// The stored events travel store -> extension host -> hub asynchronously, one at a
+			// time per listener in emit order: sentinels emitted on the same broker now (after the
+			// 250 replies) reach the hub after both of them.
+			for k, mb := range targets {
+				ev := sentinelMeta(mb, k)
+				env.ExtHost.Events.AfterMessageStored.Emit(&ev)
+			}
+			for _, m := range monitors {
+				<-m.done
+			}
+		})
+		if !ok {
+			var silent []string
+			for _, m := range monitors {
+				select {
+				case <-m.done:
+				default:
+					m.mu.Lock()
+					silent = append(silent, fmt.Sprintf("v%d by %s %q (%d events read)", m.v, m.how, m.x, len(m.got)))
+					m.mu.Unlock()
+				}
+			}
+			c.Hang("monitor-silent:"+n.mode, fmt.Sprintf("mode %s: two messages were stored in mailbox %q for %q and sentinels dispatched, but these mailbox monitors relayed no sentinel: %s",
+				n.mode, name, a.Text, strings.Join(silent, "; ")), dump)
+			return
+		}
+		ids := []string{msgs[0].ID, msgs[1].ID}
+		for _, m := range monitors {
+			k := key{m.how, m.x}
+			why, decided := m.judge(name, ids, targets)
+			if !decided {
+				c.Count("e2e_ws_undecided", 1)
+				c.Inconclusive(fmt.Sprintf("mode %s: v%d monitor [by %s %q]: %s", n.mode, m.v, m.how, m.x, why))
+				continue
+			}
+			c.Count(fmt.Sprintf("e2e_ws_monitor:v%d", m.v), 1)
+			c.Count("e2e_ws_monitor_by_"+m.how, 1)
+			if why != "" {
+				c.Violation(fkey(k, fmt.Sprintf("ws-v%d", m.v)), fmt.Sprintf("mode %s: mail to %q is stored in mailbox %q, but the v%d monitor asked [by %s %q] does not watch it: %s",
+					n.mode, a.Text, name, m.v, m.how, m.x, fw.Trunc(why, 300)), detail)
+				continue
+			}
+			c.Count("e2e_ws_told", int64(len(ids)))
+		}
+		sig += fmt.Sprintf("|ws%d", len(monitors))
+		for _, m := range monitors {
+			_ = m.conn.Close()
 		}
 	}
-	var keys []key
-	for _, k := range all {
-		if strings.Contains(k.x, "/") {
-			c.Count("e2e_skipped_slash", 1)
-			continue
-		}
-		keys = append(keys, k)
-	}
-	fkey := func(k key, iface string) string {
-		if k.how == "name" && edge {
-			return keyEdgePeriod
-		}
-		return "C04:" + iface + "-by-" + k.how + ":" + n.mode
-	}
-	sig := "e2e|" + n.mode + "|" + a.Class
+
 	// read routes: every key must reach both messages' mailbox; message 0 is fetched
 	for _, k := range keys {
 		if k.how == "name" && edge {
